@@ -107,13 +107,15 @@ def extract(repo=None, config="default", quiet=True):
         lock.close()
 
 
-def _prune_cache(keep, max_entries=40):
+def _prune_cache(keep, max_entries=160, min_age_s=3600):
+    """drop the oldest cached fact sets; never one younger than an hour (a concurrent check may be loading it)"""
     d = os.path.join(CACHE, "facts")
+    now = time.time()
     ents = [os.path.join(d, e) for e in os.listdir(d) if ".tmp" not in e]
     ents.sort(key=lambda p: os.path.getmtime(p))
     while len(ents) > max_entries:
         v = ents.pop(0)
-        if v != keep:
+        if v != keep and now - os.path.getmtime(v) > min_age_s:
             shutil.rmtree(v, ignore_errors=True)
 
 
